@@ -26,6 +26,7 @@ LEVEL_TEXT = ("seeded search over storage-fault sequences applied to valid files
 LEVEL_NOTE = ("allowed outcomes: return, library FormatError family, ValueError (incl. UnicodeDecodeError from the "
               "medium's text layer); a wall-clock trip is re-run under a deterministic line budget before it counts")
 RUNS = {"quick": 9000, "thorough": 400000}
+OWN_WATCHDOG = True   # per-parse alarm + deterministic line budget inside run()
 RULE = ("per run one valid BF3/BEC2/BF2 file and ~10 damage sets of 1-4 storage faults each; every damaged text is "
         "parsed by the matching entry point under 2-4 configurations (decryptor set none/public-only/private/wrong "
         "key, MAC on/off, path/stream) plus downstream ConfigId / platform-filter parsing; evaluations = parses; "
